@@ -52,6 +52,12 @@ class Module:
             self.renamed = alpha.apply(self.tree, relpath)
             from . import propagate
             self.propagated = propagate.apply(self.tree, relpath)
+            if self.propagated:
+                # substituted temporaries can complete a loop -> comprehension pattern, which in turn can free another temporary
+                from .normalize import loops_to_comprehensions
+                if loops_to_comprehensions(self.tree):
+                    for q_, d_ in propagate.apply(self.tree, relpath).items():
+                        self.propagated.setdefault(q_, []).extend(d_)
             ast.fix_missing_locations(self.tree)
         self.lines = source.splitlines()
         self._defs = None
